@@ -36,6 +36,10 @@ CHECKS = {
  'C10': dict(engine='P', technique='exhaustive enumeration of all 0/1 specification matrices (arity<=3, results<=2) x call forms, oracle = the matrix',
              text='Every Args/Rets matrix for every signature of arity <=3 over {string,*string} with <=2 results, as function, method and interface-method contract (plus a contradicting function contract), with a function body implementing the complement flow: every listed flow must be reported and nothing outside the closure of the matrix (eager and on-demand).',
              note='over-approximation inside the transitive closure of the matrix is tolerated', ref='§6 C10'),
+
+ 'C09': dict(engine='P', technique='exhaustive enumeration of the predefined-summary table (signature conformance) + one-call programs per (entry, argument position) executed natively with tokens vs real taint analysis (tool load path)',
+             text='Every table entry is resolved against a program importing all table packages and every Args/Rets index is checked against the real signature; for every entry invocable with type-directed synthesised arguments and every argument position a one-call program carries a token in that argument only: every natively observed flow into a result, a pointer-like argument or the receiver must be reported when the summary is applied.',
+             note='string-like token carriers only; not-invocable entries listed in the evidence; net/ and crypto/ tables only in thorough', ref='§6 C09'),
 }
 NA = []
 def main():
